@@ -285,11 +285,17 @@ func verifHarness_C18_malformed() {
 	if verifSymbolic() {
 		// malformed input is refused by the decoder only if the decoder is left strict
 		strict := true
+		direct := true
 		for i := 0; i < verifEventCount(); i++ {
 			if verifEventKind(i) == "xml.Decode" {
 				strict = verifAnd(strict, verifEventStr(i, 1) == "strict")
 			}
+			if verifEventKind(i) == "xml.Decode" || verifEventKind(i) == "json.Decode" {
+				tag := verifEventStr(i, 0)
+				direct = verifAnd(direct, tag == "*github.com/gookit/rux/pkg/binding.verifBody" || tag == "*strings.Reader")
+			}
 		}
+		verifAssert(direct, "the decoder reads the request body (or the given bytes) itself, not a truncating wrapper")
 		verifAssert(strict, "the XML decoder is used as encoding/xml sets it up (strict, no entity table, no auto-close list)")
 	} else {
 		// a fixed battery of malformed documents: every one is an error, none binds
@@ -302,6 +308,21 @@ func verifHarness_C18_malformed() {
 			rq := &http.Request{Method: "POST", URL: &url.URL{Path: "/"}, Header: http.Header{"Content-Type": {"application/xml"}}}
 			rq.Body = &verifBody{strings.NewReader(doc)}
 			verifAssert(Auto(rq, &u) != nil, "malformed XML yields an error through automatic binding")
+		}
+		// a body of any size binds: the multipart in-memory threshold is not a limit for JSON / XML bodies
+		{
+			saved := DefaultMaxMemory
+			DefaultMaxMemory = 16
+			long := strings.Repeat("v", 200)
+			var u verifUser
+			rq := &http.Request{Method: "POST", URL: &url.URL{Path: "/"}, Header: http.Header{"Content-Type": {"application/json"}}}
+			rq.Body = &verifBody{strings.NewReader(`{"name":"` + long + `"}`)}
+			verifAssert(Auto(rq, &u) == nil && u.Name == long, "a JSON body longer than the multipart memory threshold binds")
+			rq = &http.Request{Method: "POST", URL: &url.URL{Path: "/"}, Header: http.Header{"Content-Type": {"application/xml"}}}
+			rq.Body = &verifBody{strings.NewReader("<verifUser><name>" + long + "</name></verifUser>")}
+			var x verifUser
+			verifAssert(Auto(rq, &x) == nil && x.Name == long, "an XML body longer than the multipart memory threshold binds")
+			DefaultMaxMemory = saved
 		}
 		for _, doc := range []string{`{"name":"x"`, `{"name":}`, `[`, `{"name":"x",}`, `{"name":x}`} {
 			var u verifUser
